@@ -19,7 +19,7 @@ from ..core import Violation
 ID = "C16"
 LEVEL = "exploration"
 RULE = (
-    "Hypothesis-generated cases: database size n (0, 1, or log-uniform up to the tier's bound), auto_index on/off, flush_on_insert on/off (off: byte oracle on the whole file after close), then 3-10 steps drawn from insert (single), insert_multiple (1-4 points), in-order or "
+    "Hypothesis-generated cases: database size n (0, 1, or log-uniform up to the tier's bound), auto_index on/off, flush_on_insert on/off (off: byte oracle on the whole file after close), then 3-10 steps drawn from insert (single, through the database or a measurement handle), failing inserts (unencodable point), rewrites in between (an update growing / a removal shrinking the file), insert_multiple (1-4 points), in-order or "
     "out-of-order times, compact or default prefixes, interleaved with early-stopping reads (get/contains matching row 0), counts, len, reindex and close+reopen, occasionally one sized batch of 1000-1100 points, default or named 'unix' csv dialect; each insert is executed on the big database and on an empty twin "
     "under the I/O recorder. Non-trivial = an insert that directly follows a read which stopped mid-file on a database of >= 100 rows, or an out-of-order insert on a database of >= 100 rows; distinct by (n, step list)."
 )
@@ -48,7 +48,17 @@ def cases(draw, nmax):
     for _ in range(draw(st.integers(3, 10))):
         k = draw(st.sampled_from(["insert", "insert", "insert", "insert_multiple", "insert_multiple", "early_get", "early_get", "early_contains", "early_contains", "count", "count", "len", "len", "reindex", "reindex", "insert_ooo", "insert_ooo", "reopen", "reopen", "insert_bulk"]))
         if k in ("insert", "insert_ooo"):
+            if draw(st.integers(0, 3)) == 0:
+                k = {"insert": "insert_h", "insert_ooo": "insert_ooo_h"}[k]  # through a measurement handle
             steps.append([k, draw(gen.points()), draw(st.booleans())])
+            r = draw(st.integers(0, 11))
+            if r in (0, 1):
+                # an update / removal in between rewrites the file: later inserts - failing ones too - start from the new file
+                steps.append(["rewrite_grow" if r == 0 else "rewrite_shrink"])
+                if draw(st.booleans()):
+                    steps.append(["insert_fail"])
+            elif r == 2:
+                steps.append(["insert_fail"])  # an insert that cannot be written must leave the bytes alone as well
         elif k == "insert_multiple":
             steps.append([k, draw(st.lists(gen.points(), min_size=1, max_size=4)), draw(st.booleans()), draw(st.booleans())])
         elif k == "insert_bulk":
@@ -88,6 +98,39 @@ def run_case(case, ctx, acc):
                     early = False
                     for si, st_ in enumerate(case["steps"]):
                         k = st_[0]
+                        via_handle = k.endswith("_h")
+                        if via_handle:
+                            k = k[:-2]
+                        if k == "insert_fail":
+                            from tinyflux import Point
+
+                            before = w.disk()
+                            e0 = len(w.events)
+                            try:
+                                db.insert(Point(time=latest + timedelta(seconds=1), measurement="m1", tags={"i": "bad\ud800"}, fields={"v": 1.0}))
+                                raise Violation("insert-raised", case, "[%s n=%d] step %d: a point that cannot be encoded was accepted" % (name, case["n"], si))
+                            except Violation:
+                                raise
+                            except Exception:
+                                pass
+                            if flush and w.disk() != before:
+                                raise Violation("not-append-only", case, "[%s n=%d] step %d: an insert that raised changed the file (%d -> %d bytes)" % (name, case["n"], si, len(before), len(w.disk())))
+                            acc.ev()
+                            acc.cls("failed_insert_after_rewrite" if info.get("_rewritten") else "failed_insert")
+                            early = False
+                            continue
+                        if k in ("rewrite_grow", "rewrite_shrink"):
+                            if not flush:
+                                continue  # rows may sit in the write buffer: there is no byte-exact "file after the rewrite" to restart from
+                            if k == "rewrite_grow":
+                                db.update(TagQuery().i == "0", tags={"pad": "q" * 300})
+                            else:
+                                db.remove(TagQuery().i == "1")
+                            # whatever was buffered has been written by now; the append-only oracle restarts from the rewritten file
+                            initial, inserted = w.disk(), []
+                            info["_rewritten"] = True
+                            early = False
+                            continue
                         if k in ("insert", "insert_ooo", "insert_multiple", "insert_bulk"):
                             if k == "insert_bulk":
                                 pts = [dict(st_[1], tags=dict(st_[1]["tags"], j=str(j))) for j in range(st_[2])]
@@ -107,6 +150,9 @@ def run_case(case, ctx, acc):
                             try:
                                 if k in ("insert_multiple", "insert_bulk"):
                                     db.insert_multiple([gen.to_point(p) for p in pts], compact_key_prefixes=compact)
+                                elif via_handle:
+                                    db.measurement(pts[0]["measurement"]).insert(gen.to_point(pts[0]))  # (handles have no compact_key_prefixes option)
+                                    acc.cls("insert_through_handle")
                                 else:
                                     db.insert(gen.to_point(pts[0]), compact_key_prefixes=compact)
                             except Exception as e:
